@@ -179,6 +179,22 @@ theorem C07_run_count {cfg : Config S} (ht : cfg.hasTimer = true) (hdt : 0 ≤ c
   rw [trace_countP, trace_countP, executed_countP]
   omega
 
+/-- `C07_run_count` for every run of a *tolerant stepped driver* (`ReachableT`: an exception escaping a callback
+    while the caller keeps stepping): still one event per accepted `set_timer`, executed once or queued; still no
+    `handle_timer` call without its event and at most one per event -/
+theorem C07_run_count_tolerant {cfg : Config S} (ht : cfg.hasTimer = true) (hdt : 0 ≤ cfg.dt)
+    {P : NodeId → Proto S σ} {w : World S σ} (h : ReachableT cfg P w) (n : NodeId) (name : String) (t : Int) :
+    accSetT w n name t = execdT w n name t + queuedT w n name t ∧
+    firedT w n name t ≤ execdT w n name t ∧
+    firedT w n name t + queuedT w n name t ≤ accSetT w n name t := by
+  have h1 := reachableT_count (spec_setT σ ht n name t) h
+  have h2 := reachableT_count (spec_firedT σ ht n name t) h
+  have h3 := winv_countP (reachableT_inv hdt h) (isTimerEv n name t)
+  simp only [mA_left, mA_right, mT] at h1 h2
+  unfold accSetT execdT queuedT firedT
+  rw [trace_countP, trace_countP, executed_countP]
+  omega
+
 /-- the same with the created events named: accepted sets = created events = executed + queued -/
 theorem C07_run_created {cfg : Config S} (ht : cfg.hasTimer = true) (hdt : 0 ≤ cfg.dt)
     {P : NodeId → Proto S σ} {w : World S σ} (h : Reachable cfg P w) (n : NodeId) (name : String) (t : Int) :
